@@ -34,9 +34,10 @@ META = {
                    "permutation on ALL lists and an involution on depth-well-formed lists, and the forward log is the "
                    "reverse-by-depth of the reverse log; level 1 lists exactly the left-hand history; a mainline range "
                    "lists exactly the left-hand segment it denotes on the linear path, which agrees with the depth-0 part "
-                   "of the merge-sorted path. REFUTED (finding): a range between two different merged branches of one base "
-                   "revision leaks the internal _StartNotLinearAncestor exception at level 1. NOT proved: exactness of "
-                   "with-merges ranges (oracle only), per-file filters (not modelled)."),
+                   "of the merge-sorted path entry by entry. REFUTED (finding C25-start-not-linear-leak): a range between two "
+                   "different merged branches of one base revision leaks the internal _StartNotLinearAncestor exception at "
+                   "level 1 (guarded version proved); a second finding (C25-open-end-valueerror) is an API-level crash. NOT "
+                   "proved: exactness of with-merges ranges (oracle only); the per-file filter clause is not covered."),
     "level_note": ("Trusted: Coq kernel, vm_compute, the hand model's correspondence (bounded sampling), vcsgraph merge_sort "
                    "and graph queries as modelled (compared on every run). Only local bzr 2a branches without ghosts on "
                    "walked left-hand histories; file filters, search filters and formatters are not modelled."),
@@ -90,7 +91,7 @@ def _rbd_cases(rng, tier):
 
 
 def _graphs(rng, tier):
-    ndag, maxn = (10, 11) if tier == "quick" else (140, 14)
+    ndag, maxn = (10, 11) if tier == "quick" else (70, 14)
     out = [list(map(list, g)) for g in msortlib.FIXED if not any(ps and ps[0] >= len(g) for ps in g)]
     for _ in range(ndag):
         out.append(daglib.gen_dag(rng, rng.randint(3, maxn), p_merge=0.3 + 0.35 * rng.random(),
@@ -108,7 +109,7 @@ def _cases_for(rng, g, tier):
     good = good_tips(g)
     if not good:
         return
-    tips = list(dict.fromkeys([good[-1]] + rng.sample(good, min(len(good), 1 if tier == "quick" else 2))))
+    tips = list(dict.fromkeys([good[-1]] + rng.sample(good, min(len(good), 1))))
     for tip in tips:
         ms = ref_merge_sort(g, tip)
         ids = [x for x, _d, _r, _e in ms]
@@ -150,9 +151,16 @@ def _cases_for(rng, g, tier):
 def corpus():
     g = [list(ps) for ps in msortlib.FIXED[0]]
     # the finding witness: 1.1.1 .. 1.2.1 at level 1 (r3 .. r4 of the first fixed history)
+    g2 = [list(ps) for ps in msortlib.FIXED[1]]
     return [_log_case(g, 6, 3, 4, False, 1, 0, False),
             _log_case(g, 6, 3, 4, False, 0, 0, False),
-            _log_case(g, 6, 3, 4, True, 1, 0, False)]
+            _log_case(g, 6, 3, 4, True, 1, 0, False),
+            # C25-open-end-valueerror: a start revision, an open end, the delayed-graph path
+            _log_case(g2, 8, 4, None, True, 1, 0, False),
+            _log_case(g2, 8, 4, None, False, 0, 0, False),
+            # the same ranges with the end given: fine
+            _log_case(g2, 8, 4, 8, True, 1, 0, False),
+            _log_case(g2, 8, 4, 8, False, 0, 0, False)]
 
 
 def cases(rng, tier):
